@@ -1,0 +1,27 @@
+//go:build verif
+
+package commands
+
+import (
+	"fmt"
+	"os"
+
+	"github.com/spf13/cobra"
+)
+
+// Hidden sub-command for the verification harness (only with `-tags verif`):
+// `git-lfs verif-prepush-refs` runs the real prePushRefs parser over its
+// standard input (the lines Git hands to the pre-push hook) and prints one line
+// per ref update it would scan:
+//
+//	<local ref name> <local sha> <remote ref name> <remote sha>
+func verifPrePushRefsCommand(cmd *cobra.Command, args []string) {
+	for _, u := range prePushRefs(os.Stdin) {
+		l, r := u.LocalRef(), u.RemoteRef()
+		fmt.Printf("%s %s %s %s\n", l.Refspec(), l.Sha, r.Refspec(), r.Sha)
+	}
+}
+
+func init() {
+	RegisterCommand("verif-prepush-refs", verifPrePushRefsCommand, nil)
+}
